@@ -310,5 +310,6 @@ func TestReplay(t *testing.T) {
 	kit.Replay(t, map[string]kit.Replayer{
 		"script": replayScript,
 		"race":   replayRace,
+		"churn":  replayChurn,
 	})
 }
